@@ -5,3 +5,4 @@ pub mod c04_c05_session;
 pub mod c08_lossy;
 pub mod c18_codecs;
 pub mod c20_cycles;
+pub mod c15_views;
